@@ -170,6 +170,6 @@ Definition s3diff (c : s3case) : bool :=
 Definition s3mon_complete (c : s3case) : bool := inclb (wanted (s_bucket c) (s_root c)) (s_reached c).
 Definition s3mon_sound (c : s3case) : bool := inclb (s_reached c) (wanted (s_bucket c) (s_root c)).
 Definition s3mon_terminates (c : s3case) : bool :=
-  s_done c && Nat.leb (List.length (s_sched c)) (walk_bound (s_cfg c) (s_bucket c)).
+  s_done c && (N.of_nat (List.length (s_sched c)) <=? walk_bound_N (s_cfg c) (s_bucket c))%N.
 Definition s3diffs (l : list s3case) := bad_idx s3diff l.
 Definition s3mons (l : list s3case) := mon_idx [s3mon_complete; s3mon_sound; s3mon_terminates] l.
